@@ -47,7 +47,8 @@ def run_demo(wt, d, meta):
     dst = os.path.join(wt, target_dir, "zz_seed_demo_test.go")
     shutil.copy(os.path.join(d, tests[0]), dst)
     names = re.findall(r"^func (Test\w+)\(", src, re.M)
-    rc, out = sh(["go", "test", "-tags", "verif", "-vet=off", "-count=1", "-run", "^(" + "|".join(names) + ")$", "./" + target_dir + "/"], cwd=wt)
+    race = ["-race"] if "-race" in (meta.get("demo_cmd", "") + meta.get("verified", "")) else []
+    rc, out = sh(["go", "test", "-tags", "verif"] + race + ["-vet=off", "-count=1", "-run", "^(" + "|".join(names) + ")$", "./" + target_dir + "/"], cwd=wt)
     os.remove(dst)
     return rc, out
 
